@@ -39,6 +39,7 @@ def build():
 """)})
     u.verify(A, "hash_key", "account", props=["C11"], fns={"hash_key": FnSpec(ret="r", rewrites=[SHA], sig="""
     ensures r matches Ok(v) ==> v@ == key_fp(*key), //@C11.fingerprints_cover_everything_they_stand_for
+        (r is Err) == pem_fails(key.key),
 """)})
     u.verify(A, "hash_external_account", "account", props=["C11"], fns={"hash_external_account": FnSpec(ret="r", rewrites=[SHA,
         ("T-MAP", r"(?P<v>\w+)\.extend\((?P<e>[^()]*\.as_bytes\(\))\)", r"\g<v>.extend_from_slice(\g<e>)", None)], sig="""
@@ -135,7 +136,10 @@ def build():
 """, rewrites=[("T-FMT", r"format!\(\"new \{key_type\} account key created, using \{signature_algorithm\} as signing algorithm\"\)", "crate::opaque_string()")])})
     u.verify(A, "Account::get_past_key", "account", props=["C11", "C04"], fns={"get_past_key": FnSpec(ret="r", sig="""
     ensures r matches Ok(k) ==> self.past_keys@.contains(*k) && key_fp(*k) == key_hash@, //@C11.rollover_is_authorised_by_the_key_with_the_stored_fingerprint,C04.key_change_is_signed_by_the_key_the_ca_has_on_record
-""", loops={1: "    invariant key_hash@ == key_hash_0@,"}, body_start="let ghost key_hash_0 = key_hash;",
+        // every superseded key is looked at: the key with the stored fingerprint is found wherever it stands in the list
+        (forall|i: int| 0 <= i < self.past_keys@.len() ==> !pem_fails(#[trigger] self.past_keys@[i].key))
+            && (exists|i: int| 0 <= i < self.past_keys@.len() && key_fp(#[trigger] self.past_keys@[i]) == key_hash@) ==> r is Ok, //@C11.the_key_the_ca_holds_is_found_among_all_the_superseded_keys,C04.the_key_the_ca_holds_is_found_among_all_the_superseded_keys
+""", loops={1: "    invariant key_hash@ == key_hash_0@, forall|j: int| 0 <= j < it.index@ ==> key_fp(#[trigger] self.past_keys@[j]) != key_hash_0@,"}, body_start="let ghost key_hash_0 = key_hash;",
         attrs="#[verifier::loop_isolation(false)]",
         rewrites=[("T-ITER", r"for key in &self\.past_keys", "for key in it: self.past_keys.iter()"),
                   ("T-CMP", r"(?P<a>past_key_hash) (?P<op>!=|==) (?P<b>key_hash)", vec_cmp)])})
@@ -238,6 +242,8 @@ pub uninterp spec fn pub_pem(k: KeyPair) -> Seq<u8>;                       // PE
 pub uninterp spec fn contact_text(c: contact::AccountContact) -> Seq<char>; // Display of a contact: `<type>:<value>`
 pub uninterp spec fn concat(t: Seq<Seq<char>>) -> Seq<char>;                // Vec<String>::join("")
 pub open spec fn kp_fp(k: KeyPair) -> Seq<u8> { sha256(pub_pem(k)) }
+// OpenSSL cannot write this key's public half as PEM (the only way hash_key fails)
+pub uninterp spec fn pem_fails(k: KeyPair) -> bool;
 pub open spec fn key_fp(k: AccountKey) -> Seq<u8> { kp_fp(k.key) }
 // the fingerprint of a contact list covers every contact, in order; that of a binding its key and its identifier
 pub open spec fn contacts_fp(c: Seq<contact::AccountContact>) -> Seq<u8> {
@@ -302,7 +308,7 @@ pub fn sha256_hash(m: &[u8]) -> (r: Vec<u8>)
 { unimplemented!() }
 impl KeyPair {
     #[verifier::external_body]
-    pub fn public_key_to_pem(&self) -> (r: Result<Vec<u8>, Error>) ensures r matches Ok(v) ==> v@ == pub_pem(*self) { unimplemented!() }
+    pub fn public_key_to_pem(&self) -> (r: Result<Vec<u8>, Error>) ensures r matches Ok(v) ==> v@ == pub_pem(*self), (r is Err) == pem_fails(*self) { unimplemented!() }
 }
 #[verifier::external_body]
 pub broadcast proof fn axiom_contact_to_string(c: &contact::AccountContact, r: String)
